@@ -19,6 +19,7 @@ package composite
 import (
 	"fmt"
 	"metacontroller/pkg/controller/common"
+	commonv1 "metacontroller/pkg/controller/common/api/v1"
 	v2 "metacontroller/pkg/controller/common/api/v2"
 
 	"k8s.io/apimachinery/pkg/runtime/schema"
@@ -30,9 +31,13 @@ import (
 	dynamicobject "metacontroller/pkg/dynamic/object"
 )
 
-func (pc *parentController) syncRollingUpdate(parentRevisions []*parentRevision, observedChildren v2.UniformObjectMap) error {
+func (pc *parentController) syncRollingUpdate(parentRevisions []*parentRevision, uniformObservedChildren v2.UniformObjectMap) error {
 	// Reconcile the set of existing child claims in ControllerRevisions.
 	claimed := pc.syncRevisionClaims(parentRevisions)
+
+	// Claims and desired children are keyed by the child's name relative to
+	// the parent, so observed children have to be looked up the same way.
+	observedChildren := uniformObservedChildren.Convert(parentRevisions[0].parent)
 
 	// Give the latest revision any children it desires that aren't claimed yet,
 	// or that don't need any changes to match the desired state.
@@ -160,7 +165,7 @@ func (pc *parentController) syncRollingUpdate(parentRevisions []*parentRevision,
 	return nil
 }
 
-func (pc *parentController) shouldContinueRolling(latest *parentRevision, observedChildren v2.UniformObjectMap) error {
+func (pc *parentController) shouldContinueRolling(latest *parentRevision, observedChildren commonv1.RelativeObjectMap) error {
 	// We continue rolling only if all children claimed by the latest revision
 	// are updated and were observed in a "happy" state, according to the
 	// user-supplied, resource-specific status checks.
